@@ -428,6 +428,58 @@ func checkC03Pairing(c *Ctx, et interface{}) {
 			}
 		}
 	}
+	// no append onto a truncated re-slice of a list the function did not allocate itself:
+	// that overwrites entries of the published list in place
+	nApp := 0
+	for _, f := range p.Funcs {
+		if !inPkg(p, f, "") {
+			continue
+		}
+		for _, ci := range Calls(f) {
+			cm := ci.Common()
+			if b, isB := cm.Value.(*ssa.Builtin); !isB || b.Name() != "append" {
+				continue
+			}
+			nApp++
+			// follow the destination back through phis to its origins
+			var origins []ssa.Value
+			seen := map[ssa.Value]bool{}
+			var walk func(v ssa.Value)
+			walk = func(v ssa.Value) {
+				if seen[v] {
+					return
+				}
+				seen[v] = true
+				switch x := v.(type) {
+				case *ssa.Phi:
+					for _, e := range x.Edges {
+						walk(e)
+					}
+				case *ssa.Call:
+					if b2, isB2 := x.Call.Value.(*ssa.Builtin); isB2 && b2.Name() == "append" {
+						walk(x.Call.Args[0])
+						return
+					}
+					origins = append(origins, v)
+				default:
+					origins = append(origins, v)
+				}
+			}
+			walk(cm.Args[0])
+			for _, o := range origins {
+				sl, isSl := o.(*ssa.Slice)
+				if !isSl || sl.High == nil || rawLocal(sl.X) {
+					continue
+				}
+				t := typeShort(sl.Type())
+				if t == "[]*TablePlayerState" || t == "[]int" {
+					c.Bad("R6", "in-place-filter:"+FuncName(f), p.InstrPos(ci), "entries are appended onto a truncated re-slice ("+p.Sym(sl).String()+") of a list this function did not allocate: the published player list / index list is overwritten in place while other code still reads it by the old indexes")
+				}
+			}
+		}
+	}
+	c.Count("appends_checked_for_in_place_overwrite", nApp)
+
 	// R4 add path
 	for _, f := range adders {
 		n := 0
@@ -500,6 +552,9 @@ func checkC03Pairing(c *Ctx, et interface{}) {
 			}
 		}
 	}
+	// R4 leave filter definition: a player stays iff his id is not among the leave ids
+	checkLeaveFilter(c)
+
 	// R4 remove path
 	for _, f := range removers {
 		for _, ci := range Calls(f) {
@@ -609,6 +664,17 @@ func mustPass(a, b ssa.Instruction) bool {
 // on the same paths of the same function.
 func checkIsInPairing(c *Ctx, rule string) {
 	p := c.P
+	// who-may-write: the seated-in flag is only ever set to the constant true (join) or
+	// the constant false in a fresh literal
+	for _, ss := range p.FieldStores("TablePlayerState", "IsIn") {
+		b, isB := ss.Val.ConstBool()
+		switch {
+		case storeIsLocal(ss.Instr) && isB && !b:
+		case !storeIsLocal(ss.Instr) && isB && b:
+		default:
+			c.Bad(rule, "IsIn-writer:"+FuncName(ss.Fn), p.InstrPos(ss.Instr), "the seated-in flag is written from "+ss.Val.String()+": only the join operation may set it (to true), together with the seat manager's flag")
+		}
+	}
 	// R7
 	n7 := 0
 	for _, ss := range p.FieldStores("TablePlayerState", "IsIn") {
@@ -668,4 +734,94 @@ func checkIsInPairing(c *Ctx, rule string) {
 		c.Check(ok, rule, FuncName(f)+":IsIn↔JoinPlayers", p.InstrPos(ss.Instr), "seated-in flag paired with the seat manager's", d)
 	}
 	c.Min(rule, "IsIn=true stores", n7, 1)
+}
+
+// checkLeaveFilter (C03.R4): in the leave computation the new player list keeps player X
+// exactly under !Contains(leaveIDs, func(id) bool { return X.PlayerID == id }).
+func checkLeaveFilter(c *Ctx) {
+	p := c.P
+	var leave *ssa.Function
+	for _, f := range p.Funcs {
+		for _, ci := range Calls(f) {
+			if calleeName(ci.Common()) == "SeatManager.RemoveSeats" {
+				for _, c2 := range Calls(f) {
+					if sc := c2.Common().StaticCallee(); sc != nil && p.IsRepoFunc(sc) && sc.Signature.Results().Len() == 3 {
+						leave = sc
+					}
+				}
+			}
+		}
+	}
+	if leave == nil {
+		c.Bad("R4", "leave-filter", "-", "leave computation not found")
+		return
+	}
+	n := 0
+	for _, ci := range Calls(leave) {
+		cs := p.CallSym(ci)
+		if cs.Kind != "builtin" || cs.Name != "append" || typeShort(ci.Common().Args[0].Type()) != "[]*TablePlayerState" {
+			continue
+		}
+		e := appendedElem(p, ci)
+		if e == nil {
+			continue
+		}
+		n++
+		ok := false
+		d := "a player is kept without testing that his id is not among the leaving ids"
+		for _, g := range p.Guards(ci) {
+			s := g.Cond.Strip()
+			if !s.IsCall("funk.Contains") || g.Val {
+				continue
+			}
+			// first argument: the leave ids parameter; second: a closure comparing the kept player's id
+			if len(leave.Params) < 3 || !symIsParam(s.Args[0].Strip(), leave.Params[2]) {
+				d = "membership is tested against " + s.Args[0].String() + ", not the leaving ids"
+				continue
+			}
+			cl := closureOperands(s.Call.Common().Args[1])
+			if len(cl) != 1 {
+				d = "membership test is not an id comparison"
+				continue
+			}
+			cmpOK := false
+			for _, b := range cl[0].Blocks {
+				for _, in := range b.Instrs {
+					if r, isR := in.(*ssa.Return); isR {
+						v := p.Sym(r.Results[0]).Strip()
+						if v.Kind == "binop" && v.Name == "==" {
+							l, rr := v.Args[0].Strip(), v.Args[1].Strip()
+							for k := 0; k < 2; k++ {
+								if l.IsField("TablePlayerState", "PlayerID") && unfree(l.Args[0]).String() == e.Strip().String() && rr.Kind == "param" {
+									cmpOK = true
+								}
+								l, rr = rr, l
+							}
+						}
+					}
+				}
+			}
+			if cmpOK {
+				ok = true
+			} else {
+				d = "the membership closure does not compare the kept player's own id with the candidate leaving id for equality"
+			}
+		}
+		// the kept element ranges over the whole current list
+		es := e.Strip()
+		if ok && !(es.Kind == "index" && len(leave.Params) >= 4 && symIsParam(es.Args[0], leave.Params[3]) && fullRange(es.Args[1], func(x *Sym) bool { return symIsParam(x, leave.Params[3]) })) {
+			ok, d = false, "the kept players are not taken from the whole current player list"
+		}
+		c.Check(ok, "R4", "leave-filter", p.InstrPos(ci), "kept iff id ∉ leaving ids, over the whole current list", "who leaves: "+d)
+	}
+	c.Min("R4", "keep-appends in the leave computation", n, 1)
+}
+
+// unfree: a captured computed value stands for the captured value itself.
+func unfree(s *Sym) *Sym {
+	s = s.Strip()
+	for s.Kind == "free" && len(s.Args) == 1 {
+		s = s.Args[0].Strip()
+	}
+	return s
 }
